@@ -212,7 +212,8 @@ Inductive updk :=
 | ULastStep (a b : nat)          (* selectors.Last(lambda step: a + step % b) : a size schedule *)
 | UTop (n : nat)                 (* selectors.Top(n)      : hill climb (stable, by fitness, descending) *)
 | UTopGen                        (* Top(1, cluster=True, key=generation_id) >> speciate : NEAT keeps the newest generation *)
-| UTable (t : list (list Z)).    (* recorded: at step s the new population is the individuals with these proposal ids *)
+| UTable (t : list (list Z))     (* recorded: at step s the new population is the individuals with these proposal ids *)
+| UNsga2 (n : nat).              (* NSGA2: once n individuals are waiting they are merged into the elites and the population is emptied *)
 
 Definition fitness (d : dna) : Z := match dfit d with Some r => r | None => 0%Z end.
 Definition gen_id (d : dna) : Z := match dgid d with Some r => r | None => 0%Z end.
@@ -238,7 +239,132 @@ Definition apply_upd (u : updk) (pop : list dna) (step : nat) : list dna :=
   | UTop n => firstn n (sort_desc pop)
   | UTopGen => let mx := fold_left Z.max (map gen_id pop) 0%Z in filter (fun d => (gen_id d =? mx)%Z) pop
   | UTable t => flat_map (find_pid pop) (nth step t [])
+  | UNsga2 n => if n <=? length pop then [] else pop
   end.
+
+(* ---------------------------------------------------------------------------------------------- *)
+(* NSGA2 (pyglove/ext/evolution/nsga2.py).  A fitness tuple is packed into one integer: (a, b) as 64a + b with
+   0 <= b < 63, a 1-tuple (a,) as 64a + 63. *)
+From Coq Require Import QArith.
+Close Scope Q_scope.
+Definition objs (d : dna) : list Z :=
+  let f := fitness d in
+  if (f mod 64 =? 63)%Z then [(f / 64)%Z] else [(f / 64)%Z; (f mod 64)%Z].
+
+(* dominates(ind1, ind2): nowhere smaller, somewhere greater *)
+Fixpoint dominates_from (a b : list Z) (strict : bool) : bool :=
+  match a, b with
+  | x :: a', y :: b' => if (x <? y)%Z then false else dominates_from a' b' (strict || (y <? x)%Z)
+  | _, _ => strict
+  end.
+Definition dominates (a b : list Z) : bool := dominates_from a b false.
+
+(* nondominated_sort: dependency graph and in-degrees over indices, then a level-by-level topological sort *)
+Section NonDominated.
+  Variable items : list dna.
+  Definition item (i : nat) : dna := nth i items (bare 0).
+  Definition idxs : list nat := seq 0 (length items).
+  Definition graph_of (i : nat) : list nat :=
+    filter (fun j => dominates (objs (item i)) (objs (item j))) idxs.
+  Definition indeg_of (i : nat) : nat :=
+    length (filter (fun j => negb (dominates (objs (item i)) (objs (item j))) && dominates (objs (item j)) (objs (item i))) idxs).
+
+  Fixpoint dec_at (i : nat) (l : list nat) : list nat :=
+    match l, i with
+    | [], _ => []
+    | x :: r, O => pred x :: r
+    | x :: r, S i' => x :: dec_at i' r
+    end.
+  (* visiting one parent: every child loses one in-degree and joins the next level when it reaches zero *)
+  Fixpoint visit_children (cs : list nat) (indeg : list nat) (next : list nat) : list nat * list nat :=
+    match cs with
+    | [] => (indeg, next)
+    | c :: r =>
+        let indeg' := dec_at c indeg in
+        visit_children r indeg' (if Nat.eqb (nth c indeg' 1%nat) 0 then next ++ [c] else next)
+    end.
+  Fixpoint visit_level (queue : list nat) (indeg : list nat) (next : list nat) : list nat * list nat :=
+    match queue with
+    | [] => (indeg, next)
+    | p :: r => let (indeg', next') := visit_children (graph_of p) indeg next in visit_level r indeg' next'
+    end.
+  Fixpoint levels (fuel : nat) (queue : list nat) (indeg : list nat) : list (list nat) :=
+    match fuel, queue with
+    | O, _ => []
+    | _, [] => []
+    | S f, _ => let (indeg', next) := visit_level queue indeg [] in queue :: levels f next indeg'
+    end.
+  Definition fronts : list (list dna) :=
+    let indeg := map indeg_of idxs in
+    map (map item) (levels (length items) (filter (fun i => Nat.eqb (nth i indeg 1%nat) 0) idxs) indeg).
+End NonDominated.
+
+(* crowding_distance_sort on one frontier; distances are exact rationals *)
+Section Crowding.
+  Variable front : list dna.
+  Definition fitem (i : nat) : dna := nth i front (bare 0).
+  Definition nobj : nat := length (objs (fitem 0)).
+  Definition fobj (i k : nat) : Z := nth k (objs (fitem i)) 0%Z.
+
+  (* sorted(range(n), key=...) is stable and ascending *)
+  Fixpoint insert_asc (k : nat) (x : nat) (l : list nat) : list nat :=
+    match l with
+    | [] => [x]
+    | y :: r => if (fobj x k <? fobj y k)%Z then x :: l else y :: insert_asc k x r
+    end.
+  Definition order_by (k : nat) : list nat := fold_left (fun acc x => insert_asc k x acc) (seq 0 (length front)) [].
+
+  Fixpoint set_q (i : nat) (v : Q) (l : list Q) : list Q :=
+    match l, i with
+    | [], _ => []
+    | _ :: r, O => v :: r
+    | x :: r, S i' => x :: set_q i' v r
+    end.
+  Definition getq (i : nat) (l : list Q) : Q := nth i l 0%Q.
+
+  (* one objective: the ends get the number of objectives (assigned, not added), the others gain the normalised gap *)
+  Definition crowd_step (dist : list Q) (k : nat) : list Q :=
+    let ord := order_by k in
+    let n := length front in
+    let mx := fobj (nth (n - 1) ord 0%nat) k in
+    let mn := fobj (nth 0 ord 0%nat) k in
+    fold_left (fun dist j =>
+      let idx := nth j ord 0%nat in
+      if Nat.eqb j 0 || Nat.eqb j (n - 1) then set_q idx (inject_Z (Z.of_nat nobj)) dist
+      else if (mn <? mx)%Z then
+        set_q idx (getq idx dist + Qmake (fobj (nth (j + 1) ord 0%nat) k - fobj (nth (j - 1) ord 0%nat) k)%Z (Z.to_pos (mx - mn)))%Q dist
+      else dist) (seq 0 n) dist.
+  Definition distances : list Q := fold_left crowd_step (seq 0 nobj) (repeat 0%Q (length front)).
+
+  (* sorted(..., key=distance, reverse=True): stable, descending *)
+  Fixpoint insert_qdesc (dist : list Q) (x : nat) (l : list nat) : list nat :=
+    match l with
+    | [] => [x]
+    | y :: r => if Qle_bool (getq x dist) (getq y dist) then y :: insert_qdesc dist x r else x :: l
+    end.
+  Definition crowding_sort : list dna :=
+    match front with
+    | [] | [_] => front
+    | _ => let dist := distances in
+           map fitem (fold_left (fun acc x => insert_qdesc dist x acc) (seq 0 (length front)) [])
+    end.
+End Crowding.
+
+(* global state of NSGA2: the elites and the cursor of next_elite *)
+Definition nsga_g := (list dna * nat)%type.
+(* population_update: (elites + inputs) >> nondominated_sort >> for_each(crowding_distance_sort) >> flatten
+   >> First(n) saved as the new elites, cursor reset; its own output is empty.  Only when n inputs are waiting. *)
+Definition nsga2_updf (n : nat) (pop : list dna) (g : nsga_g) (step : nat) : list dna * nsga_g :=
+  if n <=? length pop then
+    ([], (firstn n (flat_map crowding_sort (fronts (fst g ++ pop))), 0%nat))
+  else (pop, g).
+(* reproduction: next_elite() >> mutator.  The mutated child is recorded (the mutator is random); the cursor moves on. *)
+Definition nsga2_repro (t : list (list Z)) (pop : list dna) (g : nsga_g) (ngen : Z) (np : nat) : list Z * nsga_g :=
+  (nth (Z.to_nat (ngen - 1)) t [],
+   (fst g, match length (fst g) with O => snd g | S k => (S (snd g)) mod (S k) end)).
+Definition nsga_gobs (g : nsga_g) : list Z :=
+  Z.of_nat (snd g) :: map (fun d => match dpid d with Some p => p | None => (-1)%Z end) (fst g).
+
 
 (* ---------------------------------------------------------------------------------------------- *)
 (* Evolution(reproduction, population_init=(gi, size) | gi, population_update).
@@ -251,6 +377,7 @@ Section Evolution.
   Variable g0 : G.
   Variable repro : list dna -> G -> Z -> nat -> list Z * G.   (* reproduction(population, global state, num_generations, step) *)
   Variable updf : list dna -> G -> nat -> list dna * G.       (* population_update(population + [dna], global state, step) *)
+  Variable gobs : G -> list Z.                                 (* what the correspondence looks at of the global state *)
 
   Record ev_st := mkEv {
     ev_np : nat; ev_nf : nat;
@@ -350,7 +477,7 @@ Section Evolution.
 
   Definition Evolution : gen :=
     mkGen ev_st (mkEv 0 0 (init gi) false 0%Z g0 [] []) ev_propose ev_feedback ev_recover true
-          (fun s => Obs (ev_np s) (ev_nf s) (ev_pop s) [] [if ev_initialized s then 1%Z else 0%Z; ev_ngen s] []).
+          (fun s => Obs (ev_np s) (ev_nf s) (ev_pop s) [] ((if ev_initialized s then 1%Z else 0%Z) :: ev_ngen s :: gobs (ev_g s)) []).
 End Evolution.
 
 (* ---------------------------------------------------------------------------------------------- *)
@@ -367,9 +494,13 @@ Fixpoint denote (m : Z) (a : alg) : gen :=
   | ARand sd t => RandomGen sd (fun k => nth k t (-1)%Z)
   | ADedup a' hm auto maxdup maxatt => Deduping (denote m a') m hm auto maxdup maxatt
   | AEvo i size u t =>
-      Evolution (denote m i) size unit tt
-                (fun _ _ ngen _ => (nth (Z.to_nat (ngen - 1)) t [], tt))
-                (fun pop _ step => (apply_upd u pop step, tt))
+      match u with
+      | UNsga2 n => Evolution (denote m i) size nsga_g ([], 0) (nsga2_repro t) (nsga2_updf n) nsga_gobs
+      | _ => Evolution (denote m i) size unit tt
+                       (fun _ _ ngen _ => (nth (Z.to_nat (ngen - 1)) t [], tt))
+                       (fun pop _ step => (apply_upd u pop step, tt))
+                       (fun _ => [])
+      end
   end.
 
 (* proposals are a function of history and seed *)
@@ -446,7 +577,7 @@ End Run.
 (* wire format
    case  ::= (alg m (reward ...) (event ...))
    alg   ::= (0) | (1 (draw ...)) | (6 (draw ...)) | (2 alg hashmod auto maxdup maxatt) | (3 alg (size?) upd ((child ...) ...))
-   upd   ::= (0) | (1 n) | (2 n) | (3) | (4 ((pid ...) ...)) | (5 a b)
+   upd   ::= (0) | (1 n) | (2 n) | (3) | (4 ((pid ...) ...)) | (5 a b) | (6 n)
    out   ::= (snapshot ...)            one per crash point (before each event, and after the last)
    snapshot ::= (live recovered live_continuation recovered_continuation (recovered_with_undelivered_reward?) (recovered_from_proposal_time_metadata?) (recovered_in_two_parts?))
    obs   ::= (np nf (dna ...) ((key ((reward?) ...)) ...) (extra ...) (obs ...))
@@ -471,6 +602,7 @@ Definition d_upd (t : tr) : option updk :=
   | L [I 3] => Some UTopGen
   | L [I 4; rows] => do r <- dlist (dlist dZ) rows; Some (UTable r)
   | L [I 5; a; b] => do a' <- dnat a; do b' <- dnat b; Some (ULastStep a' b')
+  | L [I 6; n] => do n' <- dnat n; Some (UNsga2 n')
   | _ => None
   end.
 
